@@ -1035,6 +1035,8 @@ Note that type resolution may not succeed."""
         in the typenode alias chain.  Returns typenode argument if it
         is not an alias."""
         while isinstance(typenode, ast.Alias):
+            if not typenode.target.resolved:
+                self.resolve_type(typenode.target)
             if typenode.target.target_giname is not None:
                 typenode = self.lookup_giname(typenode.target.target_giname)
             else:
